@@ -1,6 +1,7 @@
 import WfProofs.PolicyLemmas
 import WfProofs.PolicyBudget
 import WfProofs.RunnerAcct
+import WfProofs.EngineFork
 import WfModel.GenRetryAcct
 import WfProofs.EngineReduce
 import WfProofs.EngineWaitUnrepaired
@@ -712,3 +713,83 @@ theorem C05_accounting_source_shape :
     GenRetryAcct.retryInfoKwargs = [("retry_number", "retry.retry_number"), ("elapsed_seconds", "elapsed"),
       ("last_exception", "retry.last_exception"), ("last_failed_at", "last_failed_at")] := by
   refine ⟨rfl, rfl, rfl, rfl, rfl, rfl, rfl, rfl, rfl, rfl, rfl, rfl, rfl, rfl, rfl, rfl, rfl, rfl, rfl, rfl, rfl⟩
+
+/-! ## one failed execution, one successor — refuted -/
+
+/-- after the result list of a tick the execution is scheduled to run again at once (stale `collect_events` snapshot:
+same retry number) AND a retry of it is queued (retry number + 1): the invocation continues twice -/
+def C05.forks (cfg : Cfg) (pol : Policy) (step : Nat) (tickEv : Ev) (res : List Res) (st : State) (exec : InProg) : Prop :=
+  (res.foldl (applyRes cfg pol step tickEv (res.any isResult)) { st := st, exec := exec }).stillInProgress = true ∧
+  (res.foldl (applyRes cfg pol step tickEv (res.any isResult)) { st := st, exec := exec }).cmds.any Cmd.isRetry = true
+
+/-- **full statement**: a failed execution has ONE successor — the re-run or the retry, never both -/
+def C05_statement_failed_execution_one_successor : Prop :=
+  ∀ (cfg : Cfg) (pol : Policy) (step : Nat) (tickEv : Ev) (res : List Res) (st : State) (exec : InProg),
+    ¬ C05.forks cfg pol step tickEv res st exec
+
+def C05.fcfg : Cfg := { steps := [{ name := 1, accepted := [5], numWorkers := 2, hasRetry := true }] }
+def C05.fa : Ev := { ty := 5, kind := .plain, uid := 1 }
+def C05.fb : Ev := { ty := 5, kind := .plain, uid := 2 }
+/-- `b` runs on an empty snapshot while `a` has meanwhile been collected into buffer 0 -/
+def C05.fst : State :=
+  { isRunning := true,
+    workers := fun s => if s = 1 then
+      { inProg := [{ ev := C05.fb, wid := 1, snapEvents := [], snapWaiters := [], attempts := 0, firstAt := 5 }],
+        collected := [(0, [C05.fa])] } else {} }
+def C05.fexec : InProg := { ev := C05.fb, wid := 1, snapEvents := [], snapWaiters := [], attempts := 0, firstAt := 5 }
+
+/-- **refuted**: `[AddCollectedEvent (stale snapshot), StepWorkerFailed]` — a collecting step that raises after its
+`collect_events` call while another worker has added to the buffer — is re-run AND retried -/
+theorem C05_refuted_failed_execution_one_successor : ¬ C05_statement_failed_execution_one_successor := by
+  intro h
+  exact h C05.fcfg C05.xpol 1 C05.fb [.addCollected 0 C05.fb, .failed 7 5] C05.fst C05.fexec ⟨by decide +kernel, by decide +kernel⟩
+
+/-- **the true part** (guard: the list does not carry both an `AddCollectedEvent` and a `StepWorkerFailed`) -/
+theorem C05_failed_execution_one_successor_partial (cfg : Cfg) (pol : Policy) (step : Nat) (tickEv : Ev) (res : List Res)
+    (st : State) (exec : InProg)
+    (hg : res.all (fun r => !isAddCollected r) = true ∨ res.all (fun r => !isFailed r) = true) :
+    ¬ C05.forks cfg pol step tickEv res st exec := by
+  intro ⟨h1, h2⟩
+  rcases hg with hg | hg
+  · rw [foldl_applyRes_still cfg pol step tickEv _ res _ hg] at h1; cases h1
+  · rw [foldl_applyRes_noRetry cfg pol step tickEv _ res _ hg (by simp)] at h2; cases h2
+
+/-! the consequence over a whole run: with `stop_after_attempt(2)` one event fails three times -/
+
+/-- result ticks of step `s` for the input event `ev` that carried a failure, as logged by the runner -/
+def C05.failedTicks (r : Runner) (s : Nat) (ev : Ev) : Nat :=
+  (r.log.filter (fun p => match p.1 with
+    | .stepResult s' _ ev' res => s' == s && ev' == ev && res.any isFailed
+    | _ => false)).length
+
+def C05.fr0 : Runner := Runner.init C05.fcfg initState 5 none none
+def C05.facts : List Act :=
+  [.external (.addEvent { ev := C05.fa } none), .external (.addEvent { ev := C05.fb } none),
+   .pull, .drain, .pull, .drain,
+   .workerDone 1 0 [.addCollected 0 C05.fa], .drain,
+   .workerDone 1 1 [.addCollected 0 C05.fb, .failed 7 5], .drain,   -- re-run of `b` on worker 1 AND retry 1 of `b` queued
+   .drain,                                                           -- … the retry starts on worker 0: `b` runs twice at once
+   .workerDone 1 1 [.failed 7 5], .drain,                            -- the re-run fails: retry 1 queued a second time
+   .drain,
+   .workerDone 1 0 [.failed 7 5], .drain]                            -- the first retry 1 fails: budget exhausted, run fails
+
+theorem C05.fsched : AcctSched C05.fcfg C05.xpol C05.fr0 C05.facts := by
+  have hw : ∀ (r : Runner) (res : List Res), r.now = 5 → (∀ exc t, Res.failed exc t ∈ res → t = 5) →
+      ∀ exc t, Res.failed exc t ∈ res → t = r.now := fun r res h1 h2 exc t h => by rw [h1]; exact h2 exc t h
+  refine ⟨tickRec_fresh _ _ _ _ _ _, tickRec_fresh _ _ _ _ _ _, trivial, trivial, trivial, trivial, ?_, trivial, ?_, trivial,
+    trivial, ?_, trivial, trivial, ?_, trivial, trivial⟩
+  · exact hw _ _ (by decide +kernel) (by intro exc t h; simp at h)
+  · exact hw _ _ (by decide +kernel) (by intro exc t h; simp at h; exact h.2)
+  · exact hw _ _ (by decide +kernel) (by intro exc t h; simp at h; exact h.2)
+  · exact hw _ _ (by decide +kernel) (by intro exc t h; simp at h; exact h.2)
+
+/-- **an admissible schedule under `stop_after_attempt(2)` in which one input event fails three times** (each event is
+delivered once; the failure report still says `attempts = 2`) -/
+theorem C05_fork_run_exceeds_budget :
+    AcctSched C05.fcfg C05.xpol C05.fr0 C05.facts ∧
+    (STree.leaf (.afterAttempt 2)).cap = some 2 ∧
+    C05.failedTicks (Runner.run C05.fcfg C05.xpol C05.fr0 C05.facts) 1 C05.fb = 3 ∧
+    (Runner.run C05.fcfg C05.xpol C05.fr0 C05.facts).stream.filter (fun p => match p with | .failed .. => true | _ => false)
+      = [.failed 1 7 2 0] ∧
+    (Runner.run C05.fcfg C05.xpol C05.fr0 C05.facts).outcome = some (.failed 1 7) :=
+  ⟨C05.fsched, by decide +kernel, by decide +kernel, by decide +kernel, by decide +kernel⟩
